@@ -183,9 +183,15 @@ def run(ctx):
 _TABLES = {}
 
 
+DOCUMENTED_ALIASES = {("SMSimfile", "stops"): "FREEZES", ("SMSimfile", "bgchanges"): "ANIMATIONS",
+                      ("SSCSimfile", "bgchanges"): "ANIMATIONS", ("SSCChart", "notes"): "NOTES2"}
+
+
 def attr_table(cls):
-    """attr -> (key, alias) read from the class itself (closure cells of item_property)"""
+    """attr -> (key, alias): the standard key is read from the class (closure cells of item_property); the alias is the
+    DOCUMENTED one (FREEZES for SM stops, ANIMATIONS for background changes, NOTES2 for SSC note data) and nothing else,
+    so that a changed alias table in the code shows up as a disagreement with the dictionary model"""
     if cls not in _TABLES:
         import gen_tables
-        _TABLES[cls] = {a: (k, al) for a, k, al in gen_tables.item_props(cls)}
+        _TABLES[cls] = {a: (k, DOCUMENTED_ALIASES.get((cls.__name__, a))) for a, k, al in gen_tables.item_props(cls)}
     return _TABLES[cls]
